@@ -69,6 +69,8 @@ def f19(spec, kind, message):
     if not shp.is_simple:
         return True
     lines = [g["coordinates"]] if g["type"] == "LineString" else g["coordinates"]
+    if g["type"] == "LineString" and all(q == lines[0][0] for q in lines[0]):
+        return False  # a line of zero length is a point, not a line that overlaps itself: it is buffered correctly and must stay so
     if any(a == b for l in lines for a, b in zip(l, l[1:])):
         return True
     # a vertex where the line doubles back on itself (angle below ~1 degree in the space the code buffers in)
@@ -152,6 +154,32 @@ KNOWN = {"F16-scaled-coordinates-too-large": f16, "F18-mitre-bevel": f18, "F19-n
 @st.composite
 def case(draw):
     g = draw(geometry_spec())
+    if g["type"] == "LineString" and draw(st.integers(0, 5)) == 0:
+        # a line that never leaves its first point (a click traced with two identical vertices): a valid geometry of zero length, buffered
+        # like the point it is
+        p = list(g["coordinates"][0])
+        g = {"type": "LineString", "coordinates": [p] * draw(st.integers(2, 3)), "meta": dict(g["meta"], deg="zero_length")}
+    if g["type"] == "Polygon" and len(g["coordinates"]) == 1 and draw(st.integers(0, 2)) == 0:
+        # two or three holes with different numbers of vertices (a triangle and a quadrilateral ...), placed inside the bounding box of the
+        # outline; kept only when the result is a valid polygon
+        import shapely
+
+        ring = g["coordinates"][0]
+        t0_, t1_ = min(q[0] for q in ring), max(q[0] for q in ring)
+        f0_, f1_ = min(q[1] for q in ring), max(q[1] for q in ring)
+        holes = []
+        for k_, nv_ in enumerate(draw(st.permutations([3, 4, 5]))[: draw(st.integers(2, 3))]):
+            cx, cy = t0_ + (t1_ - t0_) * (k_ + 1) / 4, f0_ + (f1_ - f0_) * draw(st.sampled_from([0.3, 0.5, 0.7]))
+            rx, ry = (t1_ - t0_) / 16, (f1_ - f0_) / 16
+            import math as _m
+
+            holes.append([[cx + rx * _m.cos(2 * _m.pi * i / nv_), cy + ry * _m.sin(2 * _m.pi * i / nv_)] for i in range(nv_)])
+        try:
+            cand = shapely.Polygon(ring, holes)
+            if cand.is_valid and all(shapely.Polygon(ring).contains(shapely.Polygon(h)) for h in holes):
+                g = {"type": "Polygon", "coordinates": [ring] + holes, "meta": g["meta"]}
+        except Exception:  # noqa: BLE001
+            pass
     def buf(pal, hi):
         return draw(st.one_of(st.sampled_from(pal), st.sampled_from(pal), st.floats(0.0, hi, allow_nan=False, allow_subnormal=False)))
     tb1, fb1 = buf(TB, 50.0), buf(FB, 20000.0)
